@@ -6,6 +6,7 @@ import re
 _IDENT = re.compile(r"(?:r#)?[A-Za-z_][A-Za-z0-9_]*")
 _NUM = re.compile(r"[0-9][0-9A-Za-z_]*(?:\.[0-9][0-9A-Za-z_]*)?(?:[eE][+-]?[0-9_]+)?[A-Za-z0-9_]*")
 _CHAR = re.compile(r"'(?:\\(?:x[0-9a-fA-F]{2}|u\{[0-9a-fA-F_]+\}|.)|[^\\'\n])'")
+_RAW = re.compile(r"(?:b|c)?r(#*)\"")
 _LIFE = re.compile(r"'(?:r#)?[A-Za-z_][A-Za-z0-9_]*")
 
 
@@ -40,10 +41,10 @@ def tokens(src):
             i = j
             continue
         # raw strings r"..", r#".."#, br#".."#, cr".."
-        m = re.match(r"(?:b|c)?r(#*)\"", src[i:i + 40])
+        m = _RAW.match(src, i)
         if m:
             close = '"' + m.group(1)
-            j = src.find(close, i + m.end())
+            j = src.find(close, m.end())
             j = n if j < 0 else j + len(close)
             out.append(("str", src[i:j], line))
             line += src.count("\n", i, j)
